@@ -574,6 +574,7 @@ class RetryOracle(HOracle):
         self.crash_gen = set()
         self.term_busy = {}          # generation -> set of channels that had deliveries outstanding when TERM arrived
         self.last_po = {}            # id(rcpt) -> pass-open tuple of its latest attempt
+        self.term_waiting = {}       # generation -> {(msg key, chan)} that waited in the schedule when TERM arrived
 
     def waiting(self, sim):
         """(msg, chan) pairs that wait in the schedule: nothing of that message outstanding on the channel"""
@@ -589,17 +590,31 @@ class RetryOracle(HOracle):
                 out.append((m, chan))
         return out
 
+    def in_schedule(self, m, chan, sim):
+        """no pass over (m, chan) is open: the latest pass (class-o open of the channel file) has reached every record that
+        is still open, and all deliveries it started have been reported, so the job was closed and the message put back"""
+        if any(c.num == m.num and c.gen == m.gen and c.chan == chan for c in sim.outstanding.values()):
+            return False
+        po = m.pass_open.get(chan, [])
+        if not po or po[-1][1] != self.ledger.generation:
+            return True
+        s_open = po[-1][2]
+        for r in m.records.get(chan, []):
+            if not r.marked and not r.final() and not any(c.seq > s_open for c in r.cmds):
+                return False          # the pass has not reached this record yet (no free slot): it is still open
+        return True
+
     def on_event(self, ev, sim):
         k = ev["kind"]
         if k == "signal" and ev["sig"] == "ALRM":
             self.alrms.append(ev["seq"])
-            busy_ch = {c.chan for c in sim.outstanding.values()}
             for m, chan in self.waiting(sim):
-                # a message whose pass may still be open (its channel has deliveries outstanding) is not in the schedule
-                if chan not in busy_ch:
+                # only messages waiting in the schedule are made due; one whose pass is open is being served anyway
+                if self.in_schedule(m, chan, sim):
                     self.alrm_due[(m.key(), chan)] = ev["seq"]
         elif k == "signal" and ev["sig"] == "TERM":
             self.term_busy[self.ledger.generation] = {c.chan for c in sim.outstanding.values()}
+            self.term_waiting[self.ledger.generation] = {(m.key(), chan) for m, chan in self.waiting(sim) if self.in_schedule(m, chan, sim)}
         elif k == "crash" and "send" in ev.get("who", []):
             self.crash_gen.add(self.ledger.generation + 1)
         elif k == "cmd":
@@ -639,8 +654,14 @@ class RetryOracle(HOracle):
 
     def due_of(self, m, chan, now):
         po = m.pass_open.get(chan, [])
-        if not po or po[-1][1] != self.ledger.generation:
+        if not po:
             return None
+        if po[-1][1] != self.ledger.generation:
+            # the schedule survives a clean restart: a message that waited in it at every TERM since its latest pass has its due
+            # time (also one set by an ALRM) written back at exit and read again at start-up
+            for g in range(po[-1][1], self.ledger.generation):
+                if (g + 1) in self.crash_gen or (m.key(), chan) not in self.term_waiting.get(g, ()):
+                    return None
         due = f_retry(m.birth, po[-1][0], chan)
         if self.alrm_due.get((m.key(), chan), 0) > po[-1][2]:
             due = min(due, now)
